@@ -96,6 +96,12 @@ def loop_machine(rng, kind, k, mi):
     elif kind == "raise_cycle":
         nodes[idle].on.append(("GO", [Trans(next(tid), idle, "GO", None, actions=[("mark", 10)] + [("raise", "GO", 1)] * k)]))
         am = AM(nodes, max_iter=mi)
+    elif kind == "raise_cycle_inert":
+        # the self-raise is accompanied by k events nobody handles: every other macrostep of the chain queues nothing
+        # (third-round seeded change C13-C reset the chain count on such a macrostep)
+        nodes[idle].on.append(("GO", [Trans(next(tid), idle, "GO", None,
+                                            actions=[("mark", 10), ("raise", "GO", 1)] + [("raise", "AUDIT", 2)] * k)]))
+        am = AM(nodes, max_iter=mi)
     elif kind == "always_raise_cycle":
         # a --GO--> b ; b --always--> a raising GO again: a cycle through BOTH always and raise (one raise action)
         b = add(0, "b", "atomic")
@@ -117,7 +123,7 @@ def loop_machine(rng, kind, k, mi):
         am = AM(nodes, max_iter=mi)
     am.probe_mark = PROBE
     am.chain_len = k
-    am.fanout = k if kind == "raise_cycle" else 1
+    am.fanout = k if kind == "raise_cycle" else (k + 1 if kind == "raise_cycle_inert" else 1)
     return am
 
 
@@ -125,9 +131,9 @@ def family(rng, tier):
     cases = []
     i = 0
     for mi in (3, 5):
-        for kind in ("always_chain", "always_cycle", "raise_chain", "raise_cycle", "always_raise_cycle", "done_cycle", "start_cycle"):
+        for kind in ("always_chain", "always_cycle", "raise_chain", "raise_cycle", "raise_cycle_inert", "always_raise_cycle", "done_cycle", "start_cycle"):
             ks = {"always_chain": [mi - 1, mi, mi + 1], "always_cycle": [1, 2, 3], "raise_chain": [mi - 1, mi, mi + 1, 2 * mi + 2],
-                  "raise_cycle": [1, 2], "always_raise_cycle": [1], "done_cycle": [1], "start_cycle": [2]}[kind]
+                  "raise_cycle": [1, 2], "raise_cycle_inert": [1, 2], "always_raise_cycle": [1], "done_cycle": [1], "start_cycle": [2]}[kind]
             for k in ks:
                 for engine in ("sync", "async"):
                     am = loop_machine(rng, kind, k, mi)
@@ -144,7 +150,7 @@ def run(rep, ctx):
     dis_all, fail_all = [], []
     fams = [("loops", family(rng, ctx["tier"]),
              "self-feeding machines: always chains of length maxIterations-1 / = / +1, always cycles of length 1-3, raise chains below/at/above "
-             "the bound, raise cycles with fan-out 1-2, an onDone that re-completes its own state, a cycle at start(); maxIterations 3 and 5; "
+             "the bound, raise cycles with fan-out 1-2, a self-raise accompanied by 1-2 events nobody handles, an onDone that re-completes its own state, a cycle at start(); maxIterations 3 and 5; "
              "both engines; each run ends with a probe event that must still be answered"),
             ("random", common.random_family(rng, 900 if big else 200, features=dict(max_iter=rng.choice([3, 4, 6]))),
              "seeded random machines with small maxIterations (raise / always / onDone feedback)")]
